@@ -49,7 +49,21 @@ while len(meta) < want and tries < 40 * want:
     if geom is None or not geom["immersion"] or geom["nlegs"] < 2:
         continue
     att = (float(rng.uniform(0, 3)), float(rng.uniform(0, 8)), float(rng.uniform(0, 12))) if rng.random() < 0.7 else None
-    path = snellexact.arim_path(geom, arim, physical=True, attenuation=att)
+    if rng.random() < 0.3:
+        # HISTORY on the Path object: a first (coarse) ray tracing through wrongly placed wall samples is looked at, then
+        # the rays of the SAME path are replaced by the exact ones; every term must be that of the current rays
+        path = snellexact.arim_path(geom, arim, physical=True, attenuation=att, decoy=float(rng.uniform(0.3e-3, 3e-3)))
+        exact_rays, path.rays = path.rays, path.decoy_rays
+        g0 = arim.ray.RayGeometry.from_path(path)
+        for k_ in range(1, g0.numinterfaces):
+            g0.inc_leg_size(k_)
+            g0.conventional_inc_angle(k_) if k_ < g0.numinterfaces - 1 else None
+        model.beamspread_2d_for_path(arim.ray.RayGeometry.from_path(path))
+        path.rays = exact_rays
+        chk.count(rays_replaced_on_the_same_path=True)
+    else:
+        path = snellexact.arim_path(geom, arim, physical=True, attenuation=att)
+        chk.count(rays_replaced_on_the_same_path=False)
     rg = arim.ray.RayGeometry.from_path(path)
     rpath = path.reverse()
     rrg = arim.ray.RayGeometry.from_path(rpath)
